@@ -9,7 +9,7 @@ From Coq Require Import String.
 From Coq Require Import List Bool Arith NArith ZArith.
 Import ListNotations.
 Require Import Str Rx RxFacts RxSub IpModel G_rx TextModel TextProofs.
-Require RxDen RxLang Ipv4Token.
+Require RxDen RxLang Ipv4Token RxSubFacts.
 
 Theorem C06_matches_are_nonempty_ordered_disjoint :
   forall (s : list chr) (r : re), nullable r = false -> forall fuel i, spans_ok i (finditer s fuel r i).
@@ -116,6 +116,29 @@ Theorem C06_finditer_reports_only_standalone_dotted_quads :
   Ipv4Token.dotted_quad (RxLang.sub s a b).
 Proof. exact Ipv4Token.ipv4_finditer_reports_only_standalone_dotted_quads. Qed.
 
+(* ... put together for the IPv4 pass over a line s with any callback (RxSubFacts.sub_loop_is_stitch: what sub writes is the text between finditer's spans, copied,
+   with one replacement per span): the pass rewrites exactly the standalone dotted quads of the line -- its spans are standalone dotted quads, every standalone
+   dotted quad is one of its spans with its exact extent -- and copies every other character. *)
+Theorem C06_ipv4_pass_rewrites_exactly_the_standalone_dotted_quads :
+  forall (St : Type) (s : list chr) (cb : St -> nat -> nat -> caps -> St * list chr) (st : St),
+  let spans := finditer s (S (length s)) IPV4_RX 0 in
+  snd (RxSub.sub_loop s (S (length s)) IPV4_RX cb st 0) = RxSub.stitch s 0 spans (RxSubFacts.sub_reps s (S (length s)) IPV4_RX cb st 0) /\
+  (forall a b, In (a, b) spans -> Ipv4Token.dotted_quad (RxLang.sub s a b) /\
+     (a = 0%nat \/ ((1 <= a)%nat /\ exists x, nth_error s (a - 1) = Some x /\ Ipv4Token.enclosing x)) /\
+     (eol s b = true \/ exists x, nth_error s b = Some x /\ Ipv4Token.enclosing x)) /\
+  (forall t a, Ipv4Token.dotted_quad t -> RxLang.occ s t a -> (a + length t <= length s)%nat ->
+     (a = 0%nat \/ ((1 <= a)%nat /\ exists x, nth_error s (a - 1) = Some x /\ in_cset x Ipv4Token.ENC = true)) ->
+     (eol s (a + length t) = true \/ exists x, nth_error s (a + length t) = Some x /\ in_cset x Ipv4Token.ENC = true) ->
+     In (a, (a + length t)%nat) spans).
+Proof.
+  intros St s cb st spans. split; [|split].
+  - apply RxSubFacts.sub_loop_is_stitch. reflexivity.
+  - intros a b H. destruct (Ipv4Token.ipv4_finditer_reports_only_standalone_dotted_quads s (S (length s)) 0 a b (Nat.le_0_l _) H) as (A & B & Q). auto.
+  - intros t a Q O L B A. apply (Ipv4Token.ipv4_finditer_reports_every_standalone_dotted_quad s t a Q O L B A); [apply Nat.le_0_l|].
+    assert (t <> []) by (destruct Q as (z1 & o1 & z2 & o2 & z3 & o3 & z4 & o4 & -> & _); destruct z1; [destruct o1|]; discriminate).
+    destruct t; [contradiction|]. cbn [length] in L. Lia.lia.
+Qed.
+
 Theorem C06_dotted_quad_parts_are_numerals_up_to_255 :
   forall t : list chr, Ipv4Token.octet_core t -> (Ipv4Token.dec_value t <= 255)%N /\ Forall Ipv4Token.dig t.
 Proof. exact Ipv4Token.octet_core_value. Qed.
@@ -133,3 +156,4 @@ Print Assumptions C06_ipv6_match_is_delimited.
 Print Assumptions C06_a_standalone_dotted_quad_is_matched_as_a_whole.
 Print Assumptions C06_finditer_reports_every_standalone_dotted_quad.
 Print Assumptions C06_finditer_reports_only_standalone_dotted_quads.
+Print Assumptions C06_ipv4_pass_rewrites_exactly_the_standalone_dotted_quads.
